@@ -617,6 +617,8 @@ func (x *FnExec) appendBuiltin(fr *Frame, cc *ssa.CallCommon, st *State, g *Term
 		return v
 	}
 	res := &SliceV{name("app.arr", tc.Ite(isEmpty, s.arr, resArr)), name("app.off", tc.Ite(isEmpty, s.off, resOff)), newLen, name("app.cap", tc.Ite(isEmpty, s.cp, resCap))}
+	// derived facts that spare the solver a case analysis: the result is the old array (same offset) or a brand-new one
+	x.assume(g, tc.Or(tc.And(tc.Eq(res.arr, s.arr), tc.Eq(res.off, s.off), tc.Eq(res.cp, s.cp)), tc.And(tc.Eq(res.arr, fresh), tc.Eq(res.off, x.refConst(0)))))
 	var ls []leaf
 	x.leaves(et, "", &ls)
 	for _, l := range ls {
